@@ -14,6 +14,7 @@ Section sk_induction.
   Hypothesis HU : forall c, P c -> P (SUnary c).
   Hypothesis HC : forall cs, Forall P cs -> P (SChain cs).
   Hypothesis HA : forall ls, Forall P ls -> P (SAsm ls).
+  Hypothesis HI : forall ls, Forall P ls -> P (SIf ls).
   Fixpoint sk_ind' (s : sk) : P s :=
     let fix go (l : list sk) : Forall P l :=
         match l with [] => Forall_nil P | c :: r => Forall_cons c (sk_ind' c) (go r) end in
@@ -23,6 +24,7 @@ Section sk_induction.
     | SUnary c => HU c (sk_ind' c)
     | SChain cs => HC cs (go cs)
     | SAsm ls => HA ls (go ls)
+    | SIf ls => HI ls (go ls)
     end.
 End sk_induction.
 
@@ -84,56 +86,154 @@ Proof.
     + cbn zeta. replace (d + Z.max a (Z.max (g c) (list_max (map g cs))) <=? limit) with false by lia. reflexivity.
 Qed.
 
-(* ------------------------------------------------------------------ expression parser *)
-(* the counter never exceeds the limit, on any skeleton *)
-Lemma pwalk_bound limit : 0 <= limit -> forall s d nd c n, d <= limit ->
-  pwalk limit d nd s = Ok (c, n) -> d <= c <= limit /\ nd <= n.
+(* ------------------------------------------------------------------ expression parser + block counter *)
+Lemma all_max_inv {A} (f : A -> res (Z * Z)) (Q : Z * Z -> Prop) l acc r :
+  (forall a b, Q a -> Q b -> Q (pmax a b)) -> Q acc ->
+  Forall (fun c => forall m, f c = Ok m -> Q m) l -> all_max f l acc = Ok r -> Q r.
 Proof.
-  intros Hl s. induction s as [|cs IH|s IH|cs IH|ls IH] using sk_ind'; intros d nd c n Hd H; cbn [pwalk] in H.
-  - inversion H; subst. lia.
-  - destruct (d + 1 >? limit) eqn:E; [discriminate|].
-    pose proof (all_max_ge _ _ _ _ H) as G. cbn [fst snd] in G.
-    assert (fst (c, n) <= limit).
-    { eapply all_max_le; [|  |exact H]; [|cbn; lia].
-      eapply Forall_impl; [|exact IH]. cbn beta. intros x Hx [c' n'] Hm. cbn [fst].
-      specialize (Hx (d + 1) (nd + 1) c' n' ltac:(lia) Hm). lia. }
-    cbn [fst] in *. lia.
-  - destruct (d + 1 >? limit) eqn:E; [discriminate|]. apply IH in H; lia.
-  - pose proof (all_max_ge _ _ _ _ H) as G. cbn [fst snd] in G.
-    assert (fst (c, n) <= limit).
-    { eapply all_max_le; [|  |exact H]; [|cbn; lia].
-      eapply Forall_impl; [|exact IH]. cbn beta. intros x Hx [c' n'] Hm. cbn [fst].
-      specialize (Hx d nd c' n' ltac:(lia) Hm). lia. }
-    cbn [fst] in *. lia.
-  - pose proof (all_max_ge _ _ _ _ H) as G. cbn [fst snd] in G.
-    assert (fst (c, n) <= limit).
-    { eapply all_max_le; [|  |exact H]; [|cbn; lia].
-      eapply Forall_impl; [|exact IH]. cbn beta. intros x Hx [c' n'] Hm. cbn [fst].
-      specialize (Hx 0 nd c' n' ltac:(lia) Hm). lia. }
-    cbn [fst] in *. lia.
+  intros HQ. revert acc. induction l as [|c l IH]; intros acc Ha HF H; cbn [all_max] in H.
+  - inversion H; subst. exact Ha.
+  - inversion HF; subst. destruct (f c) as [m| |] eqn:E; try discriminate.
+    apply (IH (pmax acc m)); auto.
+Qed.
+Lemma all_max_no_panic {A} (f : A -> res (Z * Z)) l acc : Forall (fun c => f c <> Panic) l -> all_max f l acc <> Panic.
+Proof.
+  revert acc. induction l as [|c l IH]; intros acc HF; cbn [all_max]; [discriminate|].
+  inversion HF; subst. destruct (f c); try congruence; try discriminate. apply IH; auto.
+Qed.
+Lemma all_max_err {A} (f : A -> res (Z * Z)) l acc :
+  Forall (fun c => f c <> Panic) l -> Exists (fun c => f c = Err) l -> all_max f l acc = Err.
+Proof.
+  revert acc. induction l as [|c l IH]; intros acc HF HE; [inversion HE|]. cbn [all_max].
+  inversion HF; subst. inversion HE; subst.
+  - rewrite H0. reflexivity.
+  - destruct (f c); try congruence; try reflexivity. apply IH; auto.
 Qed.
 
-Lemma pwalk_nest limit d nd cs : pwalk limit d nd (SNest cs) =
-  if d + 1 >? limit then Err else all_max (pwalk limit (d + 1) (nd + 1)) cs (d + 1, nd + 1).
+Lemma pwalk_nest limit bd d nd cs : pwalk limit bd d nd (SNest cs) =
+  if d + 1 >? limit then Err else all_max (pwalk limit bd (d + 1) (nd + 1)) cs (d + 1, nd + 1).
 Proof. reflexivity. Qed.
-Lemma pwalk_unary limit d nd c : pwalk limit d nd (SUnary c) = if d + 1 >? limit then Err else pwalk limit (d + 1) (nd + 1) c.
+Lemma pwalk_unary limit bd d nd c : pwalk limit bd d nd (SUnary c) = if d + 1 >? limit then Err else pwalk limit bd (d + 1) (nd + 1) c.
 Proof. reflexivity. Qed.
-Lemma pwalk_chain limit d nd cs : pwalk limit d nd (SChain cs) = all_max (pwalk limit d nd) cs (d, nd).
+Lemma pwalk_chain limit bd d nd cs : pwalk limit bd d nd (SChain cs) = all_max (pwalk limit bd d nd) cs (d, nd).
 Proof. reflexivity. Qed.
-Lemma pwalk_asm limit d nd ls : pwalk limit d nd (SAsm ls) = all_max (pwalk limit 0 nd) ls (d, nd).
+Lemma pwalk_asm limit bd d nd ls : pwalk limit bd d nd (SAsm ls) =
+  if bd >=? limit then Err else all_max (pwalk limit (bd + 1) d (nd + 1)) ls (d, nd + 1).
+Proof. reflexivity. Qed.
+Lemma pwalk_if limit bd d nd ls : pwalk limit bd d nd (SIf ls) =
+  if bd >=? limit then Err else all_max (pwalk limit (bd + 1) d (nd + 1)) ls (d, nd + 1).
 Proof. reflexivity. Qed.
 
-(* without asm blocks the parser's behaviour is decided by the counted nesting alone, and the native nesting of
+Lemma pwalk_no_panic limit s : forall bd d nd, pwalk limit bd d nd s <> Panic.
+Proof.
+  induction s as [|cs IH|s IH|cs IH|ls IH|ls IH] using sk_ind'; intros bd d nd.
+  - discriminate.
+  - rewrite pwalk_nest. destruct (_ >? _); [discriminate|]. apply all_max_no_panic.
+    eapply Forall_impl; [|exact IH]. cbn beta. auto.
+  - rewrite pwalk_unary. destruct (_ >? _); [discriminate|]. apply IH.
+  - rewrite pwalk_chain. apply all_max_no_panic. eapply Forall_impl; [|exact IH]. cbn beta. auto.
+  - rewrite pwalk_asm. destruct (_ >=? _); [discriminate|]. apply all_max_no_panic.
+    eapply Forall_impl; [|exact IH]. cbn beta. auto.
+  - rewrite pwalk_if. destruct (_ >=? _); [discriminate|]. apply all_max_no_panic.
+    eapply Forall_impl; [|exact IH]. cbn beta. auto.
+Qed.
+
+(* the counters never exceed the limit, on any skeleton; and the NATIVE nesting of counted frames (expression levels
+   and blocks together) is LINEAR in the limit: both counters are cumulative, each bounds its own kind of frame *)
+Lemma pwalk_bound limit : 0 <= limit -> forall s bd d nd c n, d <= limit -> bd <= limit ->
+  pwalk limit bd d nd s = Ok (c, n) ->
+  d <= c <= limit /\ nd <= n /\ n - nd <= (limit - d) + (limit - bd).
+Proof.
+  intros Hl s. induction s as [|cs IH|s IH|cs IH|ls IH|ls IH] using sk_ind'; intros bd d nd c n Hd Hb H.
+  - cbn in H. inversion H; subst. lia.
+  - rewrite pwalk_nest in H. destruct (d + 1 >? limit) eqn:E; [discriminate|].
+    pose proof (all_max_ge _ _ _ _ H) as G. cbn [fst snd] in G.
+    assert (Q : fst (c, n) <= limit /\ snd (c, n) - nd <= (limit - d) + (limit - bd)).
+    { eapply (all_max_inv _ (fun m => fst m <= limit /\ snd m - nd <= (limit - d) + (limit - bd))); [| |  |exact H].
+      - intros a b (A1 & A2) (B1 & B2). unfold pmax. cbn [fst snd]. lia.
+      - cbn [fst snd]. lia.
+      - eapply Forall_impl; [|exact IH]. cbn beta. intros x Hx [c' n'] Hm. cbn [fst snd].
+        specialize (Hx bd (d + 1) (nd + 1) c' n' ltac:(lia) Hb Hm). lia. }
+    cbn [fst snd] in Q. lia.
+  - rewrite pwalk_unary in H. destruct (d + 1 >? limit) eqn:E; [discriminate|].
+    apply IH in H; [|lia|lia]. lia.
+  - rewrite pwalk_chain in H.
+    pose proof (all_max_ge _ _ _ _ H) as G. cbn [fst snd] in G.
+    assert (Q : fst (c, n) <= limit /\ snd (c, n) - nd <= (limit - d) + (limit - bd)).
+    { eapply (all_max_inv _ (fun m => fst m <= limit /\ snd m - nd <= (limit - d) + (limit - bd))); [| |  |exact H].
+      - intros a b (A1 & A2) (B1 & B2). unfold pmax. cbn [fst snd]. lia.
+      - cbn [fst snd]. lia.
+      - eapply Forall_impl; [|exact IH]. cbn beta. intros x Hx [c' n'] Hm. cbn [fst snd].
+        specialize (Hx bd d nd c' n' Hd Hb Hm). lia. }
+    cbn [fst snd] in Q. lia.
+  - rewrite pwalk_asm in H. destruct (bd >=? limit) eqn:E; [discriminate|].
+    pose proof (all_max_ge _ _ _ _ H) as G. cbn [fst snd] in G.
+    assert (Q : fst (c, n) <= limit /\ snd (c, n) - nd <= (limit - d) + (limit - bd)).
+    { eapply (all_max_inv _ (fun m => fst m <= limit /\ snd m - nd <= (limit - d) + (limit - bd))); [| |  |exact H].
+      - intros a b (A1 & A2) (B1 & B2). unfold pmax. cbn [fst snd]. lia.
+      - cbn [fst snd]. lia.
+      - eapply Forall_impl; [|exact IH]. cbn beta. intros x Hx [c' n'] Hm. cbn [fst snd].
+        specialize (Hx (bd + 1) d (nd + 1) c' n' Hd ltac:(lia) Hm). lia. }
+    cbn [fst snd] in Q. lia.
+  - rewrite pwalk_if in H. destruct (bd >=? limit) eqn:E; [discriminate|].
+    pose proof (all_max_ge _ _ _ _ H) as G. cbn [fst snd] in G.
+    assert (Q : fst (c, n) <= limit /\ snd (c, n) - nd <= (limit - d) + (limit - bd)).
+    { eapply (all_max_inv _ (fun m => fst m <= limit /\ snd m - nd <= (limit - d) + (limit - bd))); [| |  |exact H].
+      - intros a b (A1 & A2) (B1 & B2). unfold pmax. cbn [fst snd]. lia.
+      - cbn [fst snd]. lia.
+      - eapply Forall_impl; [|exact IH]. cbn beta. intros x Hx [c' n'] Hm. cbn [fst snd].
+        specialize (Hx (bd + 1) d (nd + 1) c' n' Hd ltac:(lia) Hm). lia. }
+    cbn [fst snd] in Q. lia.
+Qed.
+
+Lemma list_max_exists_sk (g : sk -> Z) l : 0 < list_max (map g l) -> Exists (fun c => g c = list_max (map g l)) l.
+Proof.
+  induction l as [|c l IH]; cbn [map list_max]; intros H; [lia|].
+  destruct (Z.max_spec (g c) (list_max (map g l))) as [(Hlt & ->)|(Hge & ->)].
+  - right. apply IH. pose proof (list_max_nonneg (map g l)). lia.
+  - left. reflexivity.
+Qed.
+(* #if blocks and asm blocks share ONE limit: whatever the interleaving (and whatever expressions sit in between),
+   more than `limit` nested blocks are an error *)
+Lemma pwalk_rejects_blocks limit s : forall bd d nd, bd <= limit -> limit < bd + block_depth s ->
+  pwalk limit bd d nd s = Err.
+Proof.
+  induction s as [|cs IH|s IH|cs IH|ls IH|ls IH] using sk_ind'; intros bd d nd Hb H; cbn [block_depth] in H.
+  - lia.
+  - rewrite pwalk_nest. destruct (_ >? _); [reflexivity|]. apply all_max_err.
+    + rewrite Forall_forall. intros x _. apply pwalk_no_panic.
+    + assert (Hp : 0 < list_max (map block_depth cs)) by lia.
+      apply list_max_exists_sk in Hp. rewrite Exists_exists in *. destruct Hp as (x & Hin & Hx).
+      exists x. split; [exact Hin|]. rewrite Forall_forall in IH. apply IH; auto. lia.
+  - rewrite pwalk_unary. destruct (_ >? _); [reflexivity|]. apply IH; auto.
+  - rewrite pwalk_chain. apply all_max_err.
+    + rewrite Forall_forall. intros x _. apply pwalk_no_panic.
+    + assert (Hp : 0 < list_max (map block_depth cs)) by lia.
+      apply list_max_exists_sk in Hp. rewrite Exists_exists in *. destruct Hp as (x & Hin & Hx).
+      exists x. split; [exact Hin|]. rewrite Forall_forall in IH. apply IH; auto. lia.
+  - rewrite pwalk_asm. destruct (bd >=? limit) eqn:E; [reflexivity|]. apply all_max_err.
+    + rewrite Forall_forall. intros x _. apply pwalk_no_panic.
+    + assert (Hp : 0 < list_max (map block_depth ls)) by lia.
+      apply list_max_exists_sk in Hp. rewrite Exists_exists in *. destruct Hp as (x & Hin & Hx).
+      exists x. split; [exact Hin|]. rewrite Forall_forall in IH. apply IH; auto; lia.
+  - rewrite pwalk_if. destruct (bd >=? limit) eqn:E; [reflexivity|]. apply all_max_err.
+    + rewrite Forall_forall. intros x _. apply pwalk_no_panic.
+    + assert (Hp : 0 < list_max (map block_depth ls)) by lia.
+      apply list_max_exists_sk in Hp. rewrite Exists_exists in *. destruct Hp as (x & Hin & Hx).
+      exists x. split; [exact Hin|]. rewrite Forall_forall in IH. apply IH; auto; lia.
+Qed.
+
+(* without blocks the parser's behaviour is decided by the counted nesting alone, and the native nesting of
    counted frames moves in lock-step with the counter *)
-Lemma pwalk_exact limit s : has_asm s = false ->
+Lemma pwalk_exact limit bd s : has_asm s = false ->
   0 <= counted_depth s /\
   forall d nd, d <= limit ->
-    pwalk limit d nd s = if d + counted_depth s <=? limit then Ok (d + counted_depth s, nd + counted_depth s) else Err.
+    pwalk limit bd d nd s = if d + counted_depth s <=? limit then Ok (d + counted_depth s, nd + counted_depth s) else Err.
 Proof.
-  induction s as [|cs IH|s IH|cs IH|ls IH] using sk_ind'; cbn [has_asm counted_depth]; intros Hasm.
+  induction s as [|cs IH|s IH|cs IH|ls IH|ls IH] using sk_ind'; cbn [has_asm counted_depth]; intros Hasm.
   - split; [lia|]. intros d nd Hd. cbn [pwalk]. replace (d + 0 <=? limit) with true by lia. do 2 f_equal; lia.
   - apply existsb_false_Forall in Hasm.
-    assert (HF : Forall (fun c => 0 <= counted_depth c /\ forall d nd, d <= limit -> pwalk limit d nd c =
+    assert (HF : Forall (fun c => 0 <= counted_depth c /\ forall d nd, d <= limit -> pwalk limit bd d nd c =
                   if d + counted_depth c <=? limit then Ok (d + counted_depth c, nd + counted_depth c) else Err) cs).
     { rewrite Forall_forall in *. intros x Hx. apply IH; auto. }
     pose proof (list_max_nonneg (map counted_depth cs)) as Hn. split; [lia|].
@@ -152,7 +252,7 @@ Proof.
       replace (d + 1 + counted_depth s) with (d + (1 + counted_depth s)) by lia.
       replace (nd + 1 + counted_depth s) with (nd + (1 + counted_depth s)) by lia. reflexivity.
   - apply existsb_false_Forall in Hasm.
-    assert (HF : Forall (fun c => 0 <= counted_depth c /\ forall d nd, d <= limit -> pwalk limit d nd c =
+    assert (HF : Forall (fun c => 0 <= counted_depth c /\ forall d nd, d <= limit -> pwalk limit bd d nd c =
                   if d + counted_depth c <=? limit then Ok (d + counted_depth c, nd + counted_depth c) else Err) cs).
     { rewrite Forall_forall in *. intros x Hx. apply IH; auto. }
     pose proof (list_max_nonneg (map counted_depth cs)) as Hn. split; [lia|].
@@ -163,17 +263,18 @@ Proof.
     cbn zeta. replace (Z.max 0 (list_max (map counted_depth cs))) with (list_max (map counted_depth cs)) by lia.
     reflexivity.
   - discriminate.
+  - discriminate.
 Qed.
 Lemma parse_top_exact limit s : has_asm s = false -> 0 <= limit ->
   parse_top limit s = if 1 + counted_depth s <=? limit then Ok (1 + counted_depth s, 1 + counted_depth s) else Err.
 Proof.
   intros Ha Hl. unfold parse_top.
   assert (Ha' : has_asm (SNest [s]) = false) by (cbn; rewrite Ha; reflexivity).
-  destruct (pwalk_exact limit (SNest [s]) Ha') as (_ & H). rewrite H by lia.
-  cbn [counted_depth map list_max]. destruct (pwalk_exact limit s Ha) as (H0 & _).
+  destruct (pwalk_exact limit 0 (SNest [s]) Ha') as (_ & H). rewrite H by lia.
+  cbn [counted_depth map list_max]. destruct (pwalk_exact limit 0 s Ha) as (H0 & _).
   replace (0 + (1 + Z.max (counted_depth s) 0)) with (1 + counted_depth s) by lia. reflexivity.
 Qed.
-Lemma parse_top_bound limit s c n : 0 <= limit -> parse_top limit s = Ok (c, n) -> c <= limit.
+Lemma parse_top_bound limit s c n : 0 <= limit -> parse_top limit s = Ok (c, n) -> c <= limit /\ n <= 2 * limit.
 Proof. intros Hl H. apply (pwalk_bound limit Hl) in H; lia. Qed.
 
 Lemma nest_paren_facts n : has_asm (nest_paren n) = false /\ counted_depth (nest_paren n) = Z.of_nat n.
@@ -207,16 +308,30 @@ Proof.
   replace (map ast_height (repeat SLeaf n)) with (repeat 1 n) by (induction n; cbn; congruence).
   rewrite chain_height_ones; lia.
 Qed.
-(* F57: asm blocks restart the counter: n nested asm blocks are accepted with n native levels *)
-Lemma nest_asm_walk limit n : 1 <= limit -> forall d nd, 0 <= d <= limit ->
-  exists c, pwalk limit d nd (nest_asm n) = Ok (c, nd + Z.of_nat n) /\ c <= limit.
+(* asm blocks nested through line expressions (x = asm { x = asm { ... } }): every level costs one expression level
+   and one block level, both cumulative: exactly `limit` levels are accepted *)
+Lemma nest_asm_walk limit n : forall bd d nd, bd <= limit -> d <= limit ->
+  pwalk limit bd d nd (nest_asm n) =
+  if (d + Z.of_nat n <=? limit) && (bd + Z.of_nat n <=? limit) then Ok (d + Z.of_nat n, nd + 2 * Z.of_nat n) else Err.
 Proof.
-  intros Hl. induction n as [|k IH]; intros d nd Hd.
-  - exists d. cbn. split; [do 2 f_equal; lia|lia].
-  - destruct (IH 1 (nd + 1) ltac:(lia)) as (c & Hc & Hcl).
-    exists (Z.max d (Z.max 1 c)). cbn [nest_asm pwalk all_max].
-    replace (0 + 1 >? limit) with false by lia. cbn [all_max]. replace (0 + 1) with 1 by lia. rewrite Hc.
-    unfold pmax. cbn [fst snd]. split; [|lia]. do 2 f_equal. lia.
+  induction n as [|k IH]; intros bd d nd Hb Hd.
+  - cbn. replace ((d + 0 <=? limit) && (bd + 0 <=? limit)) with true by lia. do 2 f_equal; lia.
+  - cbn [nest_asm]. rewrite pwalk_nest. destruct (d + 1 >? limit) eqn:E0.
+    { replace ((d + Z.of_nat (S k) <=? limit) && (bd + Z.of_nat (S k) <=? limit)) with false by lia. reflexivity. }
+    cbn [all_max]. rewrite pwalk_asm. destruct (bd >=? limit) eqn:E.
+    + replace ((d + Z.of_nat (S k) <=? limit) && (bd + Z.of_nat (S k) <=? limit)) with false by lia. reflexivity.
+    + cbn [all_max]. rewrite IH by lia.
+      destruct ((d + 1 + Z.of_nat k <=? limit) && (bd + 1 + Z.of_nat k <=? limit)) eqn:E2.
+      * replace ((d + Z.of_nat (S k) <=? limit) && (bd + Z.of_nat (S k) <=? limit)) with true by lia.
+        unfold pmax. cbn [fst snd]. do 2 f_equal; lia.
+      * replace ((d + Z.of_nat (S k) <=? limit) && (bd + Z.of_nat (S k) <=? limit)) with false by lia. reflexivity.
+Qed.
+Lemma nest_asm_lines limit n : 0 <= limit ->
+  parse_lines limit [nest_asm n] = if Z.of_nat n <=? limit then Ok (Z.of_nat n, 2 * Z.of_nat n) else Err.
+Proof.
+  intros Hl. unfold parse_lines. cbn [all_max]. rewrite nest_asm_walk by lia.
+  replace ((0 + Z.of_nat n <=? limit) && (0 + Z.of_nat n <=? limit)) with (Z.of_nat n <=? limit) by lia.
+  destruct (_ <=? _); [|reflexivity]. unfold pmax. cbn [fst snd]. do 2 f_equal; lia.
 Qed.
 
 (* ------------------------------------------------------------------ #if blocks *)
